@@ -456,7 +456,8 @@ class World:
                 rc = p.wait(timeout=10)
             except subprocess.TimeoutExpired:
                 return None
-            if rc != 0 and not crashed and not any(m.get("bad_env") for m in sc["messages"]) and not (sc.get("alarm") and rc == 52):
+            inj_fault = bool(sc.get("fault")) and sc["fault"]["key"].startswith("inj")       # an injector with a failing call reports it
+            if rc != 0 and not crashed and not inj_fault and not any(m.get("bad_env") for m in sc["messages"]) and not (sc.get("alarm") and rc == 52):
                 return "injector exited %r" % rc
         snap, bad, pids = h.snapshot()
         v = self.check_post(snap, bad)
@@ -510,7 +511,7 @@ def scenario(draw):
     if draw(st.integers(0, 5)) == 0:
         sc["alarm"] = {"inj": draw(st.integers(0, nm - 1)), "k": draw(st.integers(0, 12))}
     if not sc.get("crash") and draw(st.integers(0, 4)) == 0:
-        sc["fault"] = {"key": draw(st.sampled_from(["send.qmail-send", "send.qmail-send", "clean.qmail-clean"])),
+        sc["fault"] = {"key": draw(st.sampled_from(["send.qmail-send", "send.qmail-send", "clean.qmail-clean", "inj0", "inj1"])),
                        "cls": draw(st.sampled_from(["unlink", "unlink", "unlink", "link", "open", "write", "fsync", "stat", "read"])),
                        "k": draw(st.integers(0, 14)), "err": draw(st.sampled_from(["5", "28", "13"]))}
     return sc
@@ -613,7 +614,9 @@ def crash_sweep_scenarios():
             out.append(dict(base, tape=list(tape), alarm={"inj": 0, "k": k}))
     # one failing unlink()/link() at every position in the daemon and the cleaner (added after seeded change C02-C: the removal order must
     # also survive an I/O error on the step before)
-    for key, cls, n in (("send.qmail-send", "unlink", 12), ("clean.qmail-clean", "unlink", 6), ("send.qmail-send", "stat", 10), ("send.qmail-send", "open", 12)):
+    for key, cls, n in (("send.qmail-send", "unlink", 12), ("clean.qmail-clean", "unlink", 6), ("send.qmail-send", "stat", 10), ("send.qmail-send", "open", 12),
+                        # the injector's own calls, up to and beyond the instant the message becomes visible (added after seeded change C02-H)
+                        ("inj0", "fsync", 3), ("inj0", "write", 6), ("inj0", "link", 3), ("inj0", "open", 5), ("inj0", "unlink", 2)):
         for k in range(n):
             out.append(dict(base, tape=[], fault={"key": key, "cls": cls, "k": k, "err": "5"}))
     return out
